@@ -48,19 +48,89 @@ func (o objSpec) setArgs(key string) []string {
 
 // fieldOf is the reference reading of a field: normalised text, missing = 0.
 func (o objSpec) fieldOf(name string) model.FVal {
-	v := model.ZeroFVal
-	for _, f := range o.Fields {
-		if string(f[0]) == name {
-			v = model.NormField(string(f[1])) // the last FIELD clause of a SET wins
+	// a dotted name is first read as a path into the JSON document of the
+	// field named by the part before the first dot; when that field is not a
+	// JSON document or has no such member, the name is an ordinary field name
+	if dot := strings.IndexByte(name, '.'); dot != -1 {
+		if doc, ok := o.plainField(name[:dot]); ok && doc.Kind == model.KJSON {
+			if v, ok := jsonMember(doc.Data, name[dot+1:]); ok {
+				return v
+			}
 		}
 	}
+	v, _ := o.plainField(name)
 	return v
+}
+
+func (o objSpec) plainField(name string) (model.FVal, bool) {
+	v, ok := model.ZeroFVal, false
+	for _, f := range o.Fields {
+		if string(f[0]) == name {
+			v, ok = model.NormField(string(f[1])), true // the last FIELD clause of a SET wins
+		}
+	}
+	return v, ok
+}
+
+// jsonMember follows a path of plain object keys / array indexes (the only
+// path syntax the generator uses) through a JSON document.
+func jsonMember(doc, path string) (model.FVal, bool) {
+	raw := json.RawMessage(doc)
+	for _, key := range strings.Split(path, ".") {
+		var obj map[string]json.RawMessage
+		var arr []json.RawMessage
+		switch {
+		case json.Unmarshal(raw, &obj) == nil && obj != nil:
+			next, ok := obj[key]
+			if !ok {
+				return model.FVal{}, false
+			}
+			raw = next
+		case json.Unmarshal(raw, &arr) == nil && arr != nil:
+			i, err := strconv.Atoi(key)
+			if err != nil || i < 0 || i >= len(arr) || strconv.Itoa(i) != key {
+				return model.FVal{}, false
+			}
+			raw = arr[i]
+		default:
+			return model.FVal{}, false
+		}
+	}
+	return model.NormField(string(raw)), true
+}
+
+// field names around the dotted-name lookup: "a" (often a JSON document),
+// names that sort right after it and share the prefix, and a JSON-valued field
+// whose own name has a dot.
+var dottedNames = []string{"a", "a-", "a.b", "a.x", "a/"}
+
+// JSON documents for those fields: plain alphanumeric keys, no duplicate keys,
+// no string members spelled like numbers' special values.
+var dottedDocs = []string{
+	`{"x":5,"y":"Blue","b":{"x":7,"y":"q"},"z":[1,2.5,"s"]}`, `{"x":1.0,"b":true}`, `{"x":"5"}`,
+	`{"x":null,"y":false}`, `{"x":{"k":1}}`, `{"y":1}`, `[1,2]`, `{"b":{"x":7,"y":"q"}}`,
+}
+
+// names a filter may use when the dataset carries the dotted fields
+var dottedFilterNames = []string{"a.x", "a.x", "a.b", "a.y", "a.b.x", "a.b.y", "a.z", "a.z.1", "a.0", "a-.x", "a-", "a", "a/", "a.q", "a.x.k"}
+
+var dottedComparands = []string{"5", "7", "1", "1.0", "2.5", "Blue", "blue", "q", "s", "true", "false", "null", `{"x":7,"y":"q"}`, `[1,2.5,"s"]`, `{"k":1}`, "0"}
+
+func hasDottedFields(objs []objSpec) bool {
+	for _, o := range objs {
+		for _, f := range o.Fields {
+			if strings.HasPrefix(string(f[0]), "a") {
+				return true
+			}
+		}
+	}
+	return false
 }
 
 // extra field values: upper-case spellings whose meaning changes when folded
 // to lower case (the shape of finding where-comparand-lowercased) and a few
 // more of every kind.
-var extraFieldValues = []string{"10", "1e1", "10.0", "100", "1e2", "1.00", "1e0", "Blue", "blue", "BLUE", `"Blue"`, `{"A":1}`, `{"a":1}`, "TRUE", "Null", "É", "é", "ABC", "abc", "aBd", "5", "5.0", "-1", "[1,2]", "[1, 2]", `"abc"`, "a\xffb"}
+var extraFieldValues = []string{"NaN", "nan", "+Inf", "-inf", "Infinity", "-Infinity", "10", "1e1", "10.0", "100", "1e2", "1.00", "1e0", "Blue", "blue", "BLUE", `"Blue"`, `{"A":1}`, `{"a":1}`, "TRUE", "Null", "É", "é", "ABC", "abc", "aBd", "5", "5.0", "-1", "[1,2]", "[1, 2]", `"abc"`, "a\xffb"}
 
 func drawFieldValue(t *rapid.T) string {
 	if rapid.IntRange(0, 3).Draw(t, "extrafv?") == 0 {
@@ -74,6 +144,7 @@ var numericValues = []string{"0", "1", "2", "3", "-1", "-2", "1.5", "2.5", "-0.5
 func drawObjects(t *rapid.T, min, max int, spread int) []objSpec {
 	n := rapid.IntRange(min, max).Draw(t, "nobjs")
 	objs := make([]objSpec, n)
+	dotted := rapid.IntRange(0, 3).Draw(t, "dottedfields") == 0
 	for i := range objs {
 		o := objSpec{ID: bstr(fmt.Sprintf("o%02d", i))}
 		o.Kind = rapid.SampledFrom([]int{0, 0, 1, 1, 1, 2, 3}).Draw(t, "kind")
@@ -86,6 +157,27 @@ func drawObjects(t *rapid.T, min, max int, spread int) []objSpec {
 		for _, name := range []string{"f", "g"} {
 			if rapid.IntRange(0, 3).Draw(t, "has"+name) != 0 {
 				o.Fields = append(o.Fields, [2]bstr{bstr(name), bstr(drawFieldValue(t))})
+			}
+		}
+		if dotted {
+			for _, name := range dottedNames {
+				if rapid.IntRange(0, 1).Draw(t, "hasdotted") == 0 {
+					continue
+				}
+				var v string
+				switch rapid.IntRange(0, 9).Draw(t, "dottedv") {
+				case 0, 1, 2, 3, 4, 5:
+					if name == "a.x" || name == "a/" {
+						v = rapid.SampledFrom(dottedComparands).Draw(t, "dscalar")
+					} else {
+						v = rapid.SampledFrom(dottedDocs).Draw(t, "ddoc")
+					}
+				case 6, 7:
+					v = rapid.SampledFrom(dottedDocs).Draw(t, "ddoc")
+				default:
+					v = rapid.SampledFrom(dottedComparands).Draw(t, "dscalar")
+				}
+				o.Fields = append(o.Fields, [2]bstr{bstr(name), bstr(v)})
 			}
 		}
 		for _, name := range []string{"n1", "n2"} {
@@ -296,7 +388,7 @@ func (f filtSpec) crossKind(objs []objSpec) bool {
 // rangeToken turns a comparand text into a token the three-token WHERE form
 // accepts as a bound: a bound starting with a letter other than "inf" would
 // switch the parser to expression mode, so strings travel JSON-quoted and
-// nan/true/false/null are not used as lower bounds.
+// nan/infinity/true/false/null are lower bounds only in the exclusive "(" form.
 func rangeToken(text string, isMin bool) (string, bool) {
 	v := model.NormField(text)
 	switch v.Kind {
@@ -323,7 +415,9 @@ func rangeToken(text string, isMin bool) (string, bool) {
 	if isMin {
 		c := tok[0]
 		if (c >= 'a' && c <= 'z' || c >= 'A' && c <= 'Z') && strings.ToLower(tok) != "inf" {
-			return "", false
+			// nan, infinity, true, false, null: only expressible as an
+			// exclusive lower bound, the parenthesis hides the letter
+			return "(" + tok, true
 		}
 	}
 	return tok, true
@@ -342,7 +436,7 @@ func respellings(text string) []string {
 	cands = append(cands, " "+trimmed+" ", trimmed)
 	switch v.Kind {
 	case model.KNumber:
-		if v.Num == v.Num && v.Num < 1e15 && v.Num > -1e15 { // finite, not NaN
+		if v.Num < 1e15 && v.Num > -1e15 { // finite (false for NaN too)
 			f := v.Num
 			cands = append(cands,
 				strconv.FormatFloat(f, 'f', -1, 64),
@@ -381,7 +475,7 @@ func respellings(text string) []string {
 		}
 		seen[c] = true
 		w := model.NormField(c)
-		if w.Kind == v.Kind && w.Same(v) && (v.Kind != model.KNumber || (v.Num == v.Num && w.Num == w.Num)) {
+		if w.Kind == v.Kind && w.Same(v) {
 			out = append(out, c)
 		}
 	}
@@ -449,6 +543,9 @@ func drawValueList(t *rapid.T, objs []objSpec, field string, n int) []bstr {
 }
 
 func drawComparand(t *rapid.T, objs []objSpec, field string) string {
+	if strings.HasPrefix(field, "a") && rapid.IntRange(0, 9).Draw(t, "dcmp") < 6 {
+		return rapid.SampledFrom(dottedComparands).Draw(t, "dcmpv")
+	}
 	if len(objs) > 0 && rapid.IntRange(0, 9).Draw(t, "cmpfrom") < 6 {
 		o := objs[rapid.IntRange(0, len(objs)-1).Draw(t, "cmpobj")]
 		for _, f := range o.Fields {
@@ -470,6 +567,9 @@ func drawFilter(t *rapid.T, c *ev.Collector, objs []objSpec) filtSpec {
 		return x
 	}
 	field := rapid.SampledFrom([]string{"f", "f", "g", "n1", "missing"}).Draw(t, "ffield")
+	if hasDottedFields(objs) && rapid.IntRange(0, 3).Draw(t, "dottedfilter") != 0 {
+		field = rapid.SampledFrom(dottedFilterNames).Draw(t, "dfield")
+	}
 	switch rapid.IntRange(0, 9).Draw(t, "fkind") {
 	case 0, 1, 2: // range
 		f := filtSpec{Kind: "range", Field: field}
@@ -477,9 +577,9 @@ func drawFilter(t *rapid.T, c *ev.Collector, objs []objSpec) filtSpec {
 			switch rapid.IntRange(0, 5).Draw(t, lbl) {
 			case 0:
 				if lo {
-					return "-inf", true
+					return rapid.SampledFrom([]string{"-inf", "-inf", "-inf", "-Infinity", "+inf", "inf"}).Draw(t, lbl+"s"), true
 				}
-				return rapid.SampledFrom([]string{"+inf", "inf", "+INF"}).Draw(t, lbl+"s"), true
+				return rapid.SampledFrom([]string{"+inf", "inf", "+INF", "+inf", "-inf", "NaN", "nan"}).Draw(t, lbl+"s"), true
 			}
 			return "", false
 		}
@@ -493,7 +593,7 @@ func drawFilter(t *rapid.T, c *ev.Collector, objs []objSpec) filtSpec {
 				mx, ok2 = rangeToken(fix(drawComparand(t, objs, field)), false)
 			}
 			if ok1 && ok2 {
-				if rapid.IntRange(0, 2).Draw(t, "minx") == 0 {
+				if rapid.IntRange(0, 2).Draw(t, "minx") == 0 && !strings.HasPrefix(mn, "(") {
 					mn = "(" + mn
 				}
 				if rapid.IntRange(0, 2).Draw(t, "maxx") == 0 {
@@ -626,6 +726,12 @@ func runWhereCase(t failer, c *ev.Collector, d whereCase) (labels []string, nont
 		if f.Kind == "op" {
 			labels = append(labels, "op:"+f.Op)
 		}
+		if strings.HasPrefix(f.Field, "a") {
+			labels = append(labels, "filter-on-dotted-or-prefix-sharing-name:"+f.Field)
+		}
+		if f.usesNonFinite(d.Objs) {
+			labels = append(labels, "nan-or-inf-compared:"+f.Kind)
+		}
 		if f.Field == "missing" {
 			labels = append(labels, "filter-on-missing-field")
 		}
@@ -663,9 +769,9 @@ func flatten(fs [][]bstr) []string {
 func TestC12_Where(t *testing.T) {
 	c := ev.New("C12", "where", "exploration")
 	t.Cleanup(c.Flush)
-	c.Rule("server level: 3-25 objects (strings, points, bounds, polygons) with fields f,g holding values of every kind (numbers incl. nan/inf spellings, strings of both cases, true/false/null, JSON containers, quoted strings, padded text) or missing, n1,n2 numeric or missing; base query SCAN/SEARCH/WITHIN/INTERSECTS (whole world)/NEARBY; 1-3 filters (1 in 8 cases: a clause count from the same threshold set up to 33, extra clauses mostly repeating an earlier one in another spelling) out of WHERE f min max (numbers, +-inf, '(' exclusive bounds, JSON-quoted strings, JSON containers), WHERE f op v for the six operators, WHEREIN f n v.. (n = 0..3, or n drawn from {1-5,7-9,15-17,31-33,63-65,100,129}: stored values under an equal-but-different spelling - 1/1.0/1e0/1e+00, 10/1e1, 0/-0/0.0, ASCII case variants, JSON-quoted strings, padding, re-spaced JSON - stored values as they are, fresh values of every kind, duplicates), WHERE \"n1 op num (&&,||) ..\" (numeric expression class, evaluated by a small evaluator with && binding tighter). Oracle: filtered IDS == [id in the unfiltered reply : every filter holds under model.NormField / Less with missing = 0]; DESC == reverse; COUNT == len(IDS); LIMIT prefix/min; CURSOR c COUNT == len(CURSOR c IDS). Comparands are drawn mostly from the stored values so equality and boundary cases occur. Non-trivial: the filters keep some but not all items, some comparison is between two different kinds, and the collection mixes strings and geometries; distinct by (filters, field values).")
+	c.Rule("server level: 3-25 objects (strings, points, bounds, polygons) with fields f,g holding values of every kind (numbers incl. NaN and +-Inf in several spellings, also as comparands of every filter form (as lower bound in the exclusive (nan form), strings of both cases, true/false/null, JSON containers, quoted strings, padded text) or missing, n1,n2 numeric or missing; in 1 of 4 datasets also fields named a, a-, a.b, a.x, a/ (JSON documents and scalars) with filters on a.x, a.b, a.b.x, a.z.1, a-.x, ... read as member of the JSON field a, else the field literally named so; base query SCAN/SEARCH/WITHIN/INTERSECTS (whole world)/NEARBY; 1-3 filters (1 in 8 cases: a clause count from the same threshold set up to 33, extra clauses mostly repeating an earlier one in another spelling) out of WHERE f min max (numbers, +-inf, '(' exclusive bounds, JSON-quoted strings, JSON containers), WHERE f op v for the six operators, WHEREIN f n v.. (n = 0..3, or n drawn from {1-5,7-9,15-17,31-33,63-65,100,129}: stored values under an equal-but-different spelling - 1/1.0/1e0/1e+00, 10/1e1, 0/-0/0.0, ASCII case variants, JSON-quoted strings, padding, re-spaced JSON - stored values as they are, fresh values of every kind, duplicates), WHERE \"n1 op num (&&,||) ..\" (numeric expression class, evaluated by a small evaluator with && binding tighter). Oracle: filtered IDS == [id in the unfiltered reply : every filter holds under model.NormField / Less with missing = 0]; DESC == reverse; COUNT == len(IDS); LIMIT prefix/min; CURSOR c COUNT == len(CURSOR c IDS). Comparands are drawn mostly from the stored values so equality and boundary cases occur. Non-trivial: the filters keep some but not all items, some comparison is between two different kinds, and the collection mixes strings and geometries; distinct by (filters, field values).")
 	c.Assume("expression-mode WHERE follows JavaScript semantics for numeric comparisons and && / || precedence (tidwall/expr); only that numeric class is generated")
-	c.Note("impl-mirrored: NaN compares as equal to every number (neither is less); WHERE on the reserved names z / properties.* is not generated")
+	c.Note("NaN has a fixed place in the reference order (before every other number, equal only to NaN); WHERE on the reserved names z / properties.* is not generated")
 	ev.Rapid("where", ev.Pick(5000, 50000))
 	rapid.Check(t, func(rt *rapid.T) {
 		objs := drawObjects(rt, 3, 25, 8)
@@ -737,7 +843,13 @@ type countCase struct {
 	Limit  int       `json:"limit"`  // 0 = none
 	Cursor int       `json:"cursor"` // 0 = none
 	Desc   bool      `json:"desc"`
+	// cursors / limits near 2^31, 2^32, 2^63 and 2^64-1 (override the ints)
+	BigCursor string `json:"big_cursor,omitempty"`
+	BigLimit  string `json:"big_limit,omitempty"`
 }
+
+var bigNumbers = []string{"2147483647", "2147483648", "4294967295", "4294967296", "4294967297",
+	"9223372036854775807", "9223372036854775808", "18446744073709550616", "18446744073709551614", "18446744073709551615"}
 
 func (d countCase) args(output string) []string {
 	v := variant{Filters: true, Desc: d.Desc, Output: output}
@@ -746,6 +858,12 @@ func (d countCase) args(output string) []string {
 	}
 	if d.Cursor > 0 {
 		v.Cursor = strconv.Itoa(d.Cursor)
+	}
+	if d.BigLimit != "" {
+		v.Limit = d.BigLimit
+	}
+	if d.BigCursor != "" {
+		v.Cursor = d.BigCursor
 	}
 	return d.Q.args(v)
 }
@@ -780,6 +898,12 @@ func runCountCase(t failer, c *ev.Collector, d countCase) (labels []string, nont
 	}
 	if d.Cursor > 0 {
 		labels = append(labels, "with-cursor")
+	}
+	if d.BigCursor != "" {
+		labels = append(labels, "cursor-near-2^31/32/63/64")
+	}
+	if d.BigLimit != "" {
+		labels = append(labels, "limit-near-2^31/32/63/64")
 	}
 	if d.Desc {
 		labels = append(labels, "desc")
@@ -818,7 +942,7 @@ func drawArea(t *rapid.T, cmd string) []bstr {
 func TestC12_Count(t *testing.T) {
 	c := ev.New("C12", "count", "exploration")
 	t.Cleanup(c.Flush)
-	c.Rule("server level: 0-60 objects (strings, points, bounds, polygons spread over +-20 degrees, below the default limit of 100 so that no LIMIT means the whole result on both sides); query SCAN/SEARCH/WITHIN/INTERSECTS/NEARBY with a random area (BOUNDS, CIRCLE, polygon OBJECT; NEARBY POINT with or without radius), no filter / MATCH * / MATCH o0* / MATCH o?[1-3] / WHERE n1 range / WHEREIN n1 (2 values, or 1..129 values around the thresholds 8/16/32/64 in other spellings), optional LIMIT 1..n+1, optional CURSOR, optional DESC. Oracle: the COUNT reply == number of ids the IDS reply of the same argument list holds. Non-trivial: mixed collection, result non-empty and smaller than the collection, and a LIMIT, CURSOR or filter is present or the command is not SCAN; distinct by (argument list, object kinds and positions).")
+	c.Rule("server level: 0-60 objects (strings, points, bounds, polygons spread over +-20 degrees, below the default limit of 100 so that no LIMIT means the whole result on both sides); query SCAN/SEARCH/WITHIN/INTERSECTS/NEARBY with a random area (BOUNDS, CIRCLE, polygon OBJECT; NEARBY POINT with or without radius), no filter / MATCH * / MATCH o0* / MATCH o?[1-3] / WHERE n1 range / WHEREIN n1 (2 values, or 1..129 values around the thresholds 8/16/32/64 in other spellings), optional LIMIT 1..n+1, optional CURSOR, optional DESC; 1 in 4 cases a CURSOR and/or LIMIT near 2^31, 2^32, 2^63 or 2^64-1. Oracle: the COUNT reply == number of ids the IDS reply of the same argument list holds. Non-trivial: mixed collection, result non-empty and smaller than the collection, and a LIMIT, CURSOR or filter is present or the command is not SCAN; distinct by (argument list, object kinds and positions).")
 	ev.Rapid("count", ev.Pick(5000, 50000))
 	rapid.Check(t, func(rt *rapid.T) {
 		objs := drawObjects(rt, 0, ev.Pick(40, 60), 20)
@@ -861,6 +985,15 @@ func TestC12_Count(t *testing.T) {
 		}
 		if qu.ordered() {
 			d.Desc = rapid.Bool().Draw(rt, "desc")
+		}
+		switch rapid.IntRange(0, 11).Draw(rt, "big") {
+		case 0:
+			d.BigCursor = rapid.SampledFrom(bigNumbers).Draw(rt, "bigcursor")
+		case 1:
+			d.BigLimit = rapid.SampledFrom(bigNumbers).Draw(rt, "biglimit")
+		case 2:
+			d.BigCursor = rapid.SampledFrom(bigNumbers).Draw(rt, "bigcursor")
+			d.BigLimit = rapid.SampledFrom(bigNumbers).Draw(rt, "biglimit")
 		}
 		c.Case()
 		labels, nt := runCountCase(rt, c, d)
@@ -918,6 +1051,39 @@ func (f filtSpec) respelledHit(objs []objSpec) bool {
 			}
 		}
 		if equal && !identical {
+			return true
+		}
+	}
+	return false
+}
+
+// usesNonFinite: the filter compares a NaN/Inf field value or comparand.
+func (f filtSpec) usesNonFinite(objs []objSpec) bool {
+	nf := func(v model.FVal) bool {
+		return v.Kind == model.KNumber && (v.Num != v.Num || v.Num > 1e308 || v.Num < -1e308)
+	}
+	switch f.Kind {
+	case "range":
+		a, _ := bound(string(f.Min))
+		b, _ := bound(string(f.Max))
+		if nf(a) && !strings.Contains(strings.ToLower(string(f.Min)), "inf") || nf(b) && !strings.Contains(strings.ToLower(string(f.Max)), "inf") {
+			return true
+		}
+	case "op":
+		if nf(model.NormField(string(f.Val))) {
+			return true
+		}
+	case "in":
+		for _, x := range f.Vals {
+			if nf(model.NormField(string(x))) {
+				return true
+			}
+		}
+	default:
+		return false
+	}
+	for _, o := range objs {
+		if nf(o.fieldOf(f.Field)) {
 			return true
 		}
 	}
